@@ -927,3 +927,102 @@ Proof.
     split; [|exists o'; split; assumption]. cbn [firstn srun]. rewrite E1. cbn [bind fst snd]. rewrite Hr. reflexivity.
   - intros H. inversion H; subst. split; [reflexivity|]. exists o. split; [reflexivity|exact E1].
 Qed.
+
+(* ---------- 13. without ANSI support: exactly the appended lines ---------- *)
+(* what an undecorated run puts on the stream, said without the formatter: for every write / write_line / overwrite on a
+   section that exists, the VISIBLE text of the indented lines of the text, joined by line feeds, and one more line feed
+   after write_line / overwrite; nothing for section(), indent, clear.  inds: the indentation of every section. *)
+Definition set_ind (inds : list nat) (i n : nat) : list nat :=
+  match nth_error inds i with Some _ => firstn i inds ++ n :: skipn (S i) inds | None => inds end.
+Definition vis_text (sty : styles) (n : nat) (text : str) : str := join_with NL (map (vis sty) (content_lines n text)).
+Fixpoint plain_out (sty : styles) (inds : list nat) (ops : list sop) : list emit :=
+  match ops with
+  | [] => []
+  | SCreate k :: r => plain_out sty (inds ++ [k]) r
+  | SIndent i n :: r => plain_out sty (set_ind inds i n) r
+  | SWrite i text nl :: r =>
+    (match nth_error inds i with Some n => emits_of_text (vis_text sty n text) ++ (if nl then [Nl] else []) | None => [] end)
+    ++ plain_out sty inds r
+  | SOverwrite i text :: r =>
+    (match nth_error inds i with Some n => emits_of_text (vis_text sty n text) ++ [Nl] | None => [] end) ++ plain_out sty inds r
+  | _ :: r => plain_out sty inds r
+  end.
+
+Definition pfmt_ok (sty : styles) (f : formatter) : Prop := f_kind f <> FNull /\ f_styles f = sty /\ f_stack f = [].
+Lemma remove_format_pok sty f m o : pfmt_ok sty f -> colorize sty false [] m = Ok ([], o) ->
+  exists f', remove_format f m = Ok (f', o) /\ pfmt_ok sty f'.
+Proof.
+  intros (Hk & Hs & Hst) H. unfold remove_format. destruct (f_kind f) eqn:Ek; try congruence;
+    rewrite Hs, Hst, H; cbn [bind fst snd]; eexists; (split; [reflexivity|]); unfold pfmt_ok; cbn; rewrite ?Ek; repeat split; congruence.
+Qed.
+Lemma write_plain_ok sty f n text nl : pfmt_ok sty f -> good_textb sty text = true ->
+  exists f', write_plain f n text nl = Ok (f', emits_of_text (vis_text sty n text) ++ (if nl then [Nl] else [])) /\ pfmt_ok sty f'.
+Proof.
+  intros Hf Hg. pose proof (good_text_spec sty text Hg) as Hl. destruct (content_lines_ok sty n text Hl) as [Hes Hne].
+  unfold write_plain. rewrite indent_text_join. destruct (join_plain sty _ Hne Hes) as [_ H2].
+  destruct (remove_format_pok sty f _ _ Hf H2) as (f' & E & Hf'). rewrite E. cbn [bind fst snd]. eauto.
+Qed.
+Lemma map_indent_set st i s n : nth_error st i = Some s ->
+  map sc_indent (set_sec st i (with_indent s n)) = set_ind (map sc_indent st) i n.
+Proof.
+  intros H. unfold set_sec, set_ind. rewrite (map_nth_error sc_indent _ _ H), map_app. cbn [map with_indent sc_indent].
+  now rewrite firstn_map, skipn_map.
+Qed.
+Lemma nth_indent st i : nth_error (map sc_indent st) i = option_map sc_indent (nth_error st i).
+Proof.
+  destruct (nth_error st i) as [s|] eqn:E; [exact (map_nth_error sc_indent _ _ E)|].
+  apply nth_error_None. rewrite map_length. now apply nth_error_None.
+Qed.
+Lemma plain_run_appends w sty ops : forall st f, pfmt_ok sty f -> good_opsb sty ops = true ->
+  exists st' f', srun false w st f ops = Ok (st', f', plain_out sty (map sc_indent st) ops) /\ pfmt_ok sty f'.
+Proof.
+  induction ops as [|o r IH]; intros st f Hf Hg; cbn [srun].
+  - eexists _, _. split; [reflexivity|exact Hf].
+  - cbn [good_opsb forallb] in Hg. apply Bool.andb_true_iff in Hg as [Hg1 Hg2].
+    destruct o as [ind|i0 text0|i text nl|i text|i n|i n]; cbn [sstep_plain plain_out good_opb] in *.
+    + cbn [bind fst snd]. destruct (IH (st ++ [new_sec ind]) f Hf Hg2) as (st' & f' & E & Hf'). rewrite E. cbn [bind fst snd app].
+      rewrite map_app in *. eexists _, _. split; [reflexivity|exact Hf'].
+    + discriminate.
+    + rewrite nth_indent. destruct (nth_error st i) as [s|]; cbn [option_map].
+      * destruct (write_plain_ok sty f (sc_indent s) text nl Hf Hg1) as (f1 & E1 & Hf1). rewrite E1. cbn [bind fst snd].
+        destruct (IH st f1 Hf1 Hg2) as (st' & f' & E & Hf'). rewrite E. cbn [bind fst snd]. eexists _, _. split; [reflexivity|exact Hf'].
+      * cbn [bind fst snd]. destruct (IH st f Hf Hg2) as (st' & f' & E & Hf'). rewrite E. cbn [bind fst snd app]. eexists _, _. split; [reflexivity|exact Hf'].
+    + rewrite nth_indent. destruct (nth_error st i) as [s|]; cbn [option_map].
+      * destruct (write_plain_ok sty f (sc_indent s) text true Hf Hg1) as (f1 & E1 & Hf1). rewrite E1. cbn [bind fst snd].
+        destruct (IH st f1 Hf1 Hg2) as (st' & f' & E & Hf'). rewrite E. cbn [bind fst snd]. eexists _, _. split; [reflexivity|exact Hf'].
+      * cbn [bind fst snd]. destruct (IH st f Hf Hg2) as (st' & f' & E & Hf'). rewrite E. cbn [bind fst snd app]. eexists _, _. split; [reflexivity|exact Hf'].
+    + cbn [bind fst snd]. destruct (IH st f Hf Hg2) as (st' & f' & E & Hf'). rewrite E. cbn [bind fst snd app]. eexists _, _. split; [reflexivity|exact Hf'].
+    + destruct (nth_error st i) as [s|] eqn:En; cbn [bind fst snd].
+      * destruct (IH (set_sec st i (with_indent s n)) f Hf Hg2) as (st' & f' & E & Hf'). rewrite E. cbn [bind fst snd app].
+        rewrite (map_indent_set st i s n En) in *. eexists _, _. split; [reflexivity|exact Hf'].
+      * destruct (IH st f Hf Hg2) as (st' & f' & E & Hf'). rewrite E. cbn [bind fst snd app].
+        unfold set_ind. rewrite nth_indent, En. cbn [option_map]. eexists _, _. split; [reflexivity|exact Hf'].
+Qed.
+(* ... and no escape byte is among them *)
+Lemma vis_no_esc sty l : okline sty l -> no_esc (vis sty l).
+Proof. intros (_ & (H1 & _) & H3). exact (colorize_plain_P sty _ [] l [] (vis sty l) H1 H3). Qed.
+Lemma join_no_esc (ls : list str) : Forall no_esc ls -> no_esc (join_with NL ls).
+Proof.
+  induction 1 as [|l r Hl Hr IH]; [constructor|]. destruct r as [|y r]; cbn [join_with]; [exact Hl|].
+  apply Forall_app. split; [exact Hl|]. constructor; [discriminate|exact IH].
+Qed.
+Lemma emits_no_esc s : no_esc s -> Forall (fun e => e <> Ch ESC) (emits_of_text s).
+Proof.
+  unfold emits_of_text. induction 1 as [|c r Hc Hr IH]; cbn [map]; constructor; [|exact IH].
+  destruct (N.eqb c LF); [discriminate|]. intros E. inversion E. contradiction.
+Qed.
+Lemma vis_text_no_esc sty n text : good_textb sty text = true -> no_esc (vis_text sty n text).
+Proof.
+  intros Hg. destruct (content_lines_ok sty n text (good_text_spec sty text Hg)) as [Hes _].
+  apply join_no_esc, Forall_map. eapply Forall_impl; [|exact Hes]. apply vis_no_esc.
+Qed.
+Lemma plain_out_no_esc sty ops : forall inds, good_opsb sty ops = true -> Forall (fun e => e <> Ch ESC) (plain_out sty inds ops).
+Proof.
+  induction ops as [|o r IH]; intros inds Hg; [constructor|].
+  cbn [good_opsb forallb] in Hg. apply Bool.andb_true_iff in Hg as [Hg1 Hg2].
+  destruct o as [ind|i0 text0|i text nl|i text|i n|i n]; cbn [plain_out good_opb] in *; try (apply IH; exact Hg2).
+  - apply Forall_app. split; [|apply IH; exact Hg2]. destruct (nth_error inds i); [|constructor].
+    apply Forall_app. split; [apply emits_no_esc, vis_text_no_esc, Hg1|]. destruct nl; repeat constructor; discriminate.
+  - apply Forall_app. split; [|apply IH; exact Hg2]. destruct (nth_error inds i); [|constructor].
+    apply Forall_app. split; [apply emits_no_esc, vis_text_no_esc, Hg1|]. repeat constructor; discriminate.
+Qed.
